@@ -15,6 +15,7 @@ pub mod c07;
 pub mod c08;
 pub mod c09;
 pub mod c10;
+pub mod c11;
 pub mod c12;
 pub mod c13;
 pub mod common;
@@ -80,6 +81,7 @@ pub fn check(prop: &str, r: &RunResult) -> Report {
 		"C05" => c05::check(r, &mut rep),
 		"C09" => c09::check(r, &mut rep),
 		"C10" => c10::check(r, &mut rep),
+		"C11" => c11::check(r, &mut rep),
 		"C12" => c12::check(r, &mut rep),
 		"C13" => c13::check(r, &mut rep),
 		"C03" => c03::check(r, &mut rep),
